@@ -6,4 +6,6 @@ import (
 )
 
 // instrumentC is filled in with the scheduler instrumentation (see modec_impl.go once Engine C exists).
-func instrumentC(fset *token.FileSet, f *ast.File, rel string) error { return instrumentCImpl(fset, f, rel) }
+func instrumentC(fset *token.FileSet, f *ast.File, rel string) error {
+	return instrumentCImpl(fset, f, rel)
+}
